@@ -24,6 +24,7 @@ mod godump;
 mod goparse;
 mod c17;
 mod c19;
+mod c19univ;
 mod goscope;
 mod c13;
 mod c16;
